@@ -33,6 +33,7 @@ type c08Scenario struct {
 	Ops            []c08Op    `json:"ops"`
 	Tasks          int        `json:"tasks"`
 	BackPressure   int        `json:"backpressure_window,omitempty"` // >0: the server's receive window; it stops reading for a while
+	StallMs        int        `json:"server_stops_reading_ms,omitempty"`
 	FailWrite      int        `json:"fail_write_j"`                  // j-th socket write after establishment fails (0: none)
 	Partial        int        `json:"fail_partial_bytes"`
 	Seg            int        `json:"segmentation"`
@@ -80,8 +81,8 @@ func runC08(e *Engine, g G, o RunOpt) RunInfo {
 				op.Kind = "iq"
 			}
 			op.Size = []int{0, 0, 200, 5000, 40000, 66000}[g.Weighted("size", 5, 3, 3, 2, 1, 1)]
-			if sc.WebSocket && op.Size > 20000 {
-				op.Size = 20000
+			if sc.WebSocket && op.Size > 66000 {
+				op.Size = 66000
 			}
 			sc.Ops = append(sc.Ops, op)
 		}
@@ -93,6 +94,8 @@ func runC08(e *Engine, g G, o RunOpt) RunInfo {
 	if !sc.TLS && !sc.WebSocket && sc.FailWrite == 0 && g.Pct("backpressure", 15) {
 		// a slow server: senders block in the middle of their writes and queue up behind each other
 		sc.BackPressure = []int{600, 3000, 20000}[g.N("window", 3)]
+		// ... for longer than any timeout the client is configured with, sometimes
+		sc.StallMs = []int{2000, 2000, 20000, 50000}[g.N("stall", 4)]
 	}
 	sc.AfterReconnect = !sc.Component && !sc.WebSocket && !sc.TLS && g.Pct("after-reconnect", 20)
 	sc.Seg, sc.LatencyNs = netModes(g, e)
@@ -207,7 +210,7 @@ func runC08(e *Engine, g G, o RunOpt) RunInfo {
 			conn.PauseReads = true
 			e.Probe("c08.backpressure")
 			e.Go("unpause", func() {
-				e.Sleep(2*time.Second + 41*time.Microsecond)
+				e.Sleep(time.Duration(sc.StallMs)*time.Millisecond + 41*time.Microsecond)
 				conn.PauseReads = false
 			})
 		}
@@ -242,6 +245,10 @@ func runC08(e *Engine, g G, o RunOpt) RunInfo {
 			})
 		}
 		e.WaitUntilFor("senders", 10*time.Minute, func() bool { return tasksDone == sc.Tasks })
+		if sc.BackPressure > 0 && conn != nil {
+			// what the kernel accepted is only seen by the server once it reads again
+			e.WaitUntilFor("server-reads-again", time.Duration(sc.StallMs)*time.Millisecond+time.Minute, func() bool { return !conn.PauseReads })
+		}
 		e.Sleep(5 * time.Second)
 		for _, c := range cancelAll {
 			c()
